@@ -2030,4 +2030,31 @@ inductive Built : Option FormatRec → Prop where
   | format {base : Option FormatRec} {ops : List Op} :
       Built base → ops.all Op.wfB = true → Built (some (format (run (Builder.empty base) ops)))
 
+/-- `find?` returns the FIRST element satisfying the test: nothing listed before it does. -/
+theorem find?_before {α : Type} [DecidableEq α] (p : α → Bool) :
+    ∀ (l : List α) (c d : α), l.find? p = some c → l.idxOf d < l.idxOf c → p d = false := by
+  intro l
+  induction l with
+  | nil => intro c d h; simp at h
+  | cons x xs ih =>
+    intro c d h hd
+    rw [List.find?_cons] at h
+    cases hx : p x with
+    | true =>
+      rw [hx] at h
+      injection h with h
+      subst h
+      simp [List.idxOf_cons] at hd
+    | false =>
+      rw [hx] at h
+      have hpc : p c = true := List.find?_some h
+      have hcx : x ≠ c := by intro e; subst e; rw [hx] at hpc; cases hpc
+      by_cases hdx : x = d
+      · subst hdx; exact hx
+      · apply ih c d h
+        have e1 : (x == d) = false := by simpa using hdx
+        have e2 : (x == c) = false := by simpa using hcx
+        simp only [List.idxOf_cons, e1, e2, cond_false] at hd
+        omega
+
 end Clikit.ArgsFmt
